@@ -550,11 +550,18 @@ class Case:
             if key not in self.fields:
                 return
             cont, rname = self.fields[key]
+            cur = getattr(cont, rname)
+            self.len_before = {key: len(cur)} if isinstance(cur, list) else {}
             setattr(cont, rname, val)
             # keep an independent copy: the section now owns `val`, and code that refreshes a list in place must not
             # be able to rewrite the oracle's record of what the user assigned
             self.touched[key], self.uval[key] = True, copy.deepcopy(val)
-            if rname in self.env.shape_names or is_counted(cont.retriever_map[rname]):
+            retr = cont.retriever_map[rname]
+            cur_len = len(retr.data) if isinstance(retr.data, list) else None
+            # a count / gate written by the user makes the file inconsistent by the user's own doing; so does a counted
+            # list of another length - unless the retriever's own commit step refreshes its counter (on_commit)
+            if rname in self.env.shape_names or (is_counted(retr) and getattr(retr, "on_commit", None) is None
+                                                  and isinstance(val, list) and len(val) != self.len_before.get(key, len(val))):
                 self.shape_edit = True
             self.cmd(f"user {key} {canon(val, self._dt(cont, rname))}", "ok")
             self.role(key, "u")
@@ -697,6 +704,14 @@ class Case:
         if st != "ok":
             self.tags.append("reload:error:" + str(reloaded))
             kind = "sections"
+            consistent = not self.shape_edit and not any(
+                getattr(L.container, L.rname) is None or len(getattr(L.container, L.rname)) != len(L.objs)
+                for L in W.lists.values())
+            # (a ValueError while re-loading is an out-of-enum value the user wrote: the user's own doing)
+            if consistent and "EndOfFile" in str(reloaded):
+                self._viol({"clause": "saved-file-unreadable", "allow": int(self.allow)},
+                           f"reload: the file written after {len(self.ops)} operations that never touched a count or gate field cannot be "
+                           f"re-loaded ({reloaded}): the values the user assigned are not what the file holds", key="reload")
         else:
             st, obs2 = common.outcome(self._collect, W, reloaded.sections)
             if st != "ok" or obs2 != obs:
@@ -1250,4 +1265,9 @@ def directed_histories():
     H.append([{"op": "user", "key": "Units.players_units[1].unit_count", "val": 1}, sv,
               {"op": "api", "what": "add_unit", "player": 1, "const": 4, "x": 0.5, "y": 0.5}, sv])
     H.append([{"op": "unknown", "section": "Map", "name": "no_such_retriever", "val": 7}, sv])
+    # a list of ANOTHER LENGTH written directly into a counted field whose own commit refreshes its counter
+    H.append([{"op": "user", "key": "Options.disabled_tech_ids_player_1", "val": [11, 12, 13]}, sv,
+              {"op": "user", "key": "Options.disabled_unit_ids_player_1", "val": [4, 5]},
+              {"op": "user", "key": "Options.disabled_building_ids_player_1", "val": [70]}, sv])
+    H.append([{"op": "user", "key": "Map.script_name", "val": "direct.xs"}, sv, sv])
     return H
